@@ -518,7 +518,7 @@ fn run_queue(id: &'static str, tier: Tier, seed: u64, ctx: &Ctx, sh: u32) -> Evi
                     let f = crate::queue::concurrent::FirstEmitRace { name: "queue-first-emit-race-shutdown", focus: QRule::Shutdown };
                     if driver::run_random(&f, &ev, ctx, scale(tier.pick(40, 600)), 4) {
                         // the drop races with the worker's start-up / parking (zero-capacity queues included)
-                        driver::run_random(&crate::queue::concurrent::DropRace, &ev, ctx, scale(tier.pick(48, 1_000)), 2);
+                        driver::run_random(&crate::queue::concurrent::DropRace, &ev, ctx, scale(tier.pick(32, 1_000)), 2);
                     }
                 }
             }
@@ -556,7 +556,10 @@ fn run_queue(id: &'static str, tier: Tier, seed: u64, ctx: &Ctx, sh: u32) -> Evi
         "C16" => {
             let c = QueueCampaign::new("queue-handler-enumerated", QRule::Handler, QGenKind::Endings);
             let cases = pattern_enumeration(&[StepOut::Ok, StepOut::Err(3), StepOut::OkZero], tier.pick(6, 8), &[None], false);
-            driver::run_list(&c, &ev, ctx, cases.into_iter(), sh);
+            if driver::run_list(&c, &ev, ctx, cases.into_iter(), sh) {
+                // a handler that reports through a second queuing sink (which has a handler of its own)
+                driver::run_random(&crate::queue::concurrent::HandlerChain, &ev, ctx, scale(tier.pick(400, 6_000)), 4);
+            }
             ev.set_extra("exhaustive_part", serde_json::json!("{ok(len), ok(0), err}^n for n<=6 (thorough: 8) x handler on/off: enumerated completely"));
             ev.set_exhaustive(false);
         }
@@ -741,6 +744,7 @@ pub fn replay(id: &'static str, campaign: &str, case: &serde_json::Value, tier: 
     try_camp!(ConcCampaign { name: "queue-sampler-panic", focus: QRule::Panic });
     try_camp!(crate::queue::concurrent::LastSlotRace);
     try_camp!(crate::queue::concurrent::DropRace);
+    try_camp!(crate::queue::concurrent::HandlerChain);
     try_camp!(crate::queue::concurrent::FirstEmitRace { name: "queue-first-emit-race", focus: QRule::Deliver });
     try_camp!(crate::queue::concurrent::FirstEmitRace { name: "queue-first-emit-race-shutdown", focus: QRule::Shutdown });
     for pid in ["C05", "C06", "C07", "C19"] {
